@@ -26,6 +26,14 @@ def limit(op):
     return P.SIZES.get(op, P.MAXBUF)
 
 
+# C05's own floor, independent of the implementation's tables: every frame a builder makes from in-range fields
+# (ident / channel / name <= 255 UTF-8 bytes, a nonce or digest of up to 20 bytes, a payload up to 1 MiB of frame
+# body) MUST pass the decoder.  Frames above the floor that the implementation still accepts must round-trip too.
+MIB = 1024 ** 2
+_FORCED_CUTS = None
+FLOOR = {0: 5 + MIB, 1: 5 + 256 + 20, 2: 5 + 256 + 20, 3: 5 + MIB, 4: 5 + 1 + 255 + 255, 5: 5 + 1 + 255 + 255}
+
+
 # ---------------------------------------------------------------- independent frame parser (harness's own)
 def parse_frames(b):
     """independent of Unpacker: returns (frames, rest) for a byte string of concatenated frames"""
@@ -181,6 +189,13 @@ def sec_roundtrip(res, drv, rng, tier, n):
     cases.append(('publish', 'x' * 256, 'c', b'p'))
     cases.append(('subscribe', 'é' * 128, 'c'))
     cases.append(('auth', 'y' * 300, b'd' * 20))
+    # boundary: the longest name with the longest nonce / digest, for the two opcodes with a small frame limit
+    cases.append(('auth', 'y' * 255, bytes(range(20))))
+    cases.append(('auth', '\u00e9' * 127 + 'x', b'\xff' * 20))
+    cases.append(('info', 'n' * 255, bytes(range(20))))
+    cases.append(('info', 'n' * 255, b'\x01\x02\x03\x04'))
+    cases.append(('subscribe', 'i' * 255, 'c' * 255))
+    cases.append(('unsubscribe', '\u00e9' * 127 + 'x', 'c' * 255))
     for m in cases:
         res.evaluations += 1
         script = {'section': 'roundtrip', 'msg': [m[0]] + [x if isinstance(x, str) else hexin(x) for x in m[1:]]}
@@ -198,12 +213,12 @@ def sec_roundtrip(res, drv, rng, tier, n):
             if all(len(b_(x)) <= 255 for x in m[1:3]):
                 res.violation('C05', 'builder-raises-in-range', 'builder raised for in-range fields', script)
             continue
-        in_range = len(b) <= limit(b[4])
         # monitor C05: header == len, decoder yields exactly one frame, reader returns the fields
         if int.from_bytes(b[0:4], 'big') != len(b):
             res.violation('C05', 'length-header', 'length header %d != %d bytes produced' % (int.from_bytes(b[0:4], 'big'), len(b)), script)
         u = P.Unpacker()
         frames, rest, err = impl_feed(u, b)
+        in_range = len(b) <= FLOOR[b[4]] or (err == 'none' and len(frames) == 1)
         if in_range:
             if err != 'none' or rest != 0 or len(frames) != 1:
                 res.violation('C05', 'decode-one-frame', 'decoder gave %d frames, rest %d, err %s' % (len(frames), rest, err), script)
@@ -242,6 +257,71 @@ def sec_roundtrip(res, drv, rng, tier, n):
                 mo = drv.ask('c.feed ' + hexin(b))
                 if mo != fmt_feed(frames, rest, err):
                     res.disagree('feed-overlimit', script, fmt_feed(frames, rest, err)[:300], mo[:300])
+
+
+def sec_roundtrip_stream(res, drv, rng, tier, n):
+    """C05 through ONE decoder: several built messages in a row, cut anywhere, must come back as exactly that
+    sequence of (opcode, fields), each as soon as its last byte has been fed"""
+    for k in range(n):
+        msgs = []
+        for _ in range(rng.randint(2, 7)):
+            m = gen_msg(rng, 'quick')
+            if m[0] == 'publish' and len(m[3]) > 5000:
+                m = m[:3] + (m[3][:rng.choice([0, 3, 1500, 4097])],)
+            if m[0] in ('info', 'auth') and len(m[2]) > 20:
+                m = m[:2] + (m[2][:20],)
+            msgs.append(m)
+        built = [impl_build(m) for m in msgs]
+        stream = b''.join(built)
+        ncut = rng.choice([0, 1, 2, 3, 6])
+        style = rng.random()
+        if style < 0.2:
+            cuts = sorted(set(range(1460, len(stream), 1460)))          # TCP-segment-like
+        elif style < 0.35:
+            cuts = sorted(set(range(1, len(stream)))) if len(stream) < 400 else sorted(rng.sample(range(1, len(stream)), 12))
+        else:
+            cuts = sorted(rng.sample(range(1, len(stream)), min(ncut, len(stream) - 1)))
+        if globals().get('_FORCED_CUTS') is not None:
+            cuts = list(_FORCED_CUTS)
+        script = {'section': 'roundtrip-stream', 'msgs': [[m[0]] + [x if isinstance(x, str) else hexin(x) for x in m[1:]] for m in msgs], 'cuts': cuts}
+        res.evaluations += 1
+        u = P.Unpacker()
+        ends, pos = [], 0
+        for b in built:
+            pos += len(b)
+            ends.append(pos)
+        got, fed, bad = [], 0, False
+        lines, impl_lines = ['c.reset'], []
+        for ch in cut(stream, cuts):
+            fr, rest, err = impl_feed(u, ch)
+            impl_lines.append(fmt_feed(fr, rest, err))
+            lines.append('c.feed ' + hexin(ch))
+            fed += len(ch)
+            got.extend(fr)
+            due = sum(1 for e in ends if e <= fed)
+            if err != 'none':
+                res.violation('C05', 'roundtrip-stream', 'the decoder raised %s on a stream of built frames (after %d of %d bytes)' % (err, fed, len(stream)), script)
+                bad = True
+                break
+            if len(got) != due:
+                res.violation('C05', 'roundtrip-stream', 'after %d bytes of a stream of %d built frames the decoder has produced %d frame(s); %d are complete' % (fed, len(built), len(got), due), script)
+                bad = True
+                break
+        if bad:
+            continue
+        for m, (op, body) in zip(msgs, got):
+            want = 'msg %s %s' % (m[0], ' '.join(hexf(b_(x)) for x in m[1:]))
+            g = impl_read(op, body)
+            if g != want:
+                res.violation('C05', 'roundtrip-stream', 'read back %s, built from %s' % (g[:200], want[:200]), script)
+                break
+        if drv is not None:
+            outs = drv.ask_many(lines)[1:]
+            if outs != impl_lines:
+                j = next(i for i in range(len(outs)) if outs[i] != impl_lines[i])
+                res.disagree('roundtrip-stream feed@%d' % j, script, impl_lines[j][:300], outs[j][:300])
+        res.note('roundtrip.stream')
+        res.nontriv(['rts', [m[0] for m in msgs], cuts[:8], len(stream)])
 
 
 def small_frames(rng):
@@ -335,6 +415,37 @@ def sec_chunking(res, drv, rng, tier, n):
         run_chunked(res, drv, fs, tail, cut(stream, cuts), script)
         res.note('chunking.long-stream-bytes', len(stream))
         res.nontriv(['long', len(fs), len(stream), step])
+    # medium-large frames around buffer-size thresholds, between small ones, under read-shaped chunkings:
+    # frame-aligned, aligned plus a few bytes of the next header, TCP segments, recv()-sized reads
+    sizes = [4090, 16370, 16379, 16380, 20000, 65531, 70000] if tier == 'quick' else \
+        [4090, 4091, 8187, 16370, 16378, 16379, 16380, 16381, 20000, 32763, 65530, 65531, 65532, 70000, 131072, 300000]
+    for size in sizes:
+        for style in ('aligned', 'aligned+', 'mss', 'recv16k', 'recv4k', 'one'):
+            fs = small_frames(rng) + [(3, b'\x01a\x01c' + rand_bytes(rng, size))] + small_frames(rng) + \
+                ([(3, b'\x01a\x01c' + rand_bytes(rng, rng.choice(sizes)))] if rng.random() < 0.3 else []) + small_frames(rng)
+            tail = rng.choice(tails)
+            stream = b''.join(enc(op, b) for op, b in fs) + tail
+            ends, pos = [], 0
+            for op, b in fs:
+                pos += 5 + len(b)
+                ends.append(pos)
+            if style == 'aligned':
+                cuts = [e for e in ends if e < len(stream)]
+            elif style == 'aligned+':
+                cuts = sorted(set(min(len(stream) - 1, e + rng.choice([0, 1, 2, 4, 5, 6])) for e in ends if e < len(stream) - 1))
+            elif style == 'mss':
+                cuts = list(range(1460, len(stream), 1460))
+            elif style == 'recv16k':
+                cuts = list(range(16384, len(stream), 16384))
+            elif style == 'recv4k':
+                cuts = list(range(4096, len(stream), 4096))
+            else:
+                cuts = []
+            cuts = [c for c in cuts if 0 < c < len(stream)]
+            script = {'section': 'chunking', 'frames': [[op, hexin(b)] for op, b in fs], 'tail': hexin(tail), 'cuts': cuts, 'mode': 'threshold-%d-%s' % (size, style)}
+            run_chunked(res, drv, fs, tail, cut(stream, cuts), script)
+            res.note('chunking.threshold.' + style)
+            res.nontriv(['thr', size, style, len(fs), len(stream)])
     # random
     for k in range(n):
         fs = small_frames(rng)
@@ -508,7 +619,7 @@ def sec_readers(res, drv, rng, tier, n):
                 res.disagree('utf8', {'section': 'utf8', 'x': x.hex()}, impl, mo)
 
 
-SECTIONS = {'roundtrip': sec_roundtrip, 'chunking': sec_chunking, 'lattice': sec_lattice, 'readers': sec_readers}
+SECTIONS = {'roundtrip': sec_roundtrip, 'roundtrip-stream': sec_roundtrip_stream, 'chunking': sec_chunking, 'lattice': sec_lattice, 'readers': sec_readers}
 
 
 def run(sections, tier, seed, drv, scale=1.0):
@@ -543,6 +654,23 @@ def replay(script, drv):
         mo = drv.ask('c.read %d %s' % (script['op'], script['body'])) if drv else impl
         if mo != impl:
             res.disagree('read', script, impl, mo)
+    elif sec == 'roundtrip-stream':
+        nstr = {'error': 1, 'info': 1, 'auth': 1, 'publish': 2, 'subscribe': 2, 'unsubscribe': 2}
+        msgs = [(m[0],) + tuple(m[1:1 + nstr[m[0]]]) + tuple(hx(x) for x in m[1 + nstr[m[0]]:]) for m in script['msgs']]
+        it = iter(msgs)
+        orig, orig_s = gen_msg, random.Random.sample
+
+        class _R(random.Random):
+            def randint(self, a, b):
+                return len(msgs) if (a, b) == (2, 7) else random.Random.randint(self, a, b)
+        rng = _R(0)
+        try:
+            globals()['gen_msg'] = lambda *_a, **_k: next(it)
+            globals()['_FORCED_CUTS'] = script['cuts']
+            sec_roundtrip_stream(res, drv, rng, 'quick', 1)
+        finally:
+            globals()['gen_msg'] = orig
+            globals()['_FORCED_CUTS'] = None
     elif sec == 'roundtrip':
         m = tuple([script['msg'][0]] + [x for x in script['msg'][1:]])
         # strings stay strings; hex payloads were rendered with hexin
